@@ -46,6 +46,40 @@ func blockUntilSignaled(ctx context.Context, c *sync.Cond, timeout time.Duration
 	}
 }
 
+// blockUntilSignaledLocked is blockUntilSignaled for a caller that already holds c.L: the lock is
+// handed to the waiting goroutine, which releases it inside c.Wait(). Because releases broadcast
+// under c.L, no wake-up can fall between the caller's failed attempt and the registration.
+func blockUntilSignaledLocked(ctx context.Context, c *sync.Cond, timeout time.Duration) bool {
+	ready := make(chan struct{})
+
+	go func() {
+		defer c.L.Unlock()
+		c.Wait()
+		close(ready)
+	}()
+
+	if timeout > 0 {
+		timer := time.NewTimer(timeout)
+		defer timer.Stop()
+
+		select {
+		case <-ctx.Done():
+			return false
+		case <-ready:
+			return true
+		case <-timer.C:
+			return false
+		}
+	}
+
+	select {
+	case <-ctx.Done():
+		return false
+	case <-ready:
+		return true
+	}
+}
+
 // BlockingLimiter implements a Limiter that blocks the caller when the limit has been reached.  The caller is
 // blocked until the limiter has been released.  This limiter is commonly used in batch clients that use the limiter
 // as a back-pressure mechanism.
@@ -99,7 +133,15 @@ func (l *BlockingLimiter) tryAcquire(ctx context.Context) (core.Listener, bool) 
 		// - A timeout
 		// - The context is cancelled
 		l.logger.Debugf("Blocking waiting for release or timeout ctx=%v", ctx)
-		if shouldAcquire := blockUntilSignaled(ctx, l.c, l.timeout); shouldAcquire {
+		// retry under the condition's lock so that a release cannot slip in before we are waiting
+		l.c.L.Lock()
+		listener, ok = l.delegate.Acquire(ctx)
+		if ok && listener != nil {
+			l.c.L.Unlock()
+			l.logger.Debugf("delegate returned a listener ctx=%v", ctx)
+			return listener, true
+		}
+		if shouldAcquire := blockUntilSignaledLocked(ctx, l.c, l.timeout); shouldAcquire {
 			listener, ok := l.delegate.Acquire(ctx)
 			if ok && listener != nil {
 				l.logger.Debugf("delegate returned a listener ctx=%v", ctx)
